@@ -173,6 +173,16 @@ pub fn gen_reply_with_core(g: &mut Gen, core: u8, k: u8, qtype: u16) -> ReplyT {
             let at = g.below(r.answers.len() + 1);
             r.answers.insert(at, RrT { owner: Rel::Qname, rtype: 5, target: Rel::Alias(g.below(3) as u8), class_in: true });
         }
+        4 => {
+            // a negative reply: nothing for the question, no referral, one SOA
+            r.answers.retain(|x| x.owner != Rel::Qname && x.rtype != 5);
+            r.authority.retain(|x| x.rtype != 2 && x.rtype != 6);
+            let owner = if k == 0 { Rel::Qname } else { Rel::Ancestor(k) };
+            r.authority.push(RrT { owner, rtype: 6, target: Rel::Host(host), class_in: true });
+            if g.chance(1, 2) {
+                r.rcode = 3;
+            }
+        }
         _ => {}
     }
     r
@@ -240,6 +250,12 @@ pub fn judge_filter(q: &WQ, reply: &WMsg, match_count: usize, got: &Option<Names
                 }
                 if !q.name.lower().is_at_or_below(&s.name.lower()) {
                     return Err(("soa-owner-not-ancestor".into(), format!("{s:?} for {}", q.name)));
+                }
+                // a server reached through a delegation of `match_count`
+                // labels cannot speak for a zone above that delegation
+                // (the match count counts the root label, depth() does not)
+                if s.name.depth() + 1 < match_count {
+                    return Err(("soa-above-delegation-in-use".into(), format!("{s:?} ({} labels) accepted at match count {match_count}", s.name.depth())));
                 }
             }
             Ok(())
@@ -506,8 +522,10 @@ impl Prop for EndToEnd {
                     }
                     gen_reply_with_core(g, 2, k, question.qtype)
                 } else {
-                    let core = g.pick(&[1u8, 1, 3]);
-                    gen_reply_with_core(g, core, 0, question.qtype)
+                    let core = g.pick(&[1u8, 1, 3, 4]);
+                    // the SOA of a negative reply: at, below or above the delegation in use
+                    let k = if core == 4 { g.below(depth + 1) as u8 } else { 0 };
+                    gen_reply_with_core(g, core, k, question.qtype)
                 }
             } else {
                 gen_reply(g)
@@ -553,7 +571,30 @@ impl Prop for EndToEnd {
             .count("replies-with-header-fault", faulty as u64);
         let answer_rrs: Vec<WRR> = match &r.result {
             Err(p) => return out.fail("resolver-panic", p.clone()),
-            Ok(Ok(ResolvedRecord::NonAuthoritative { rrs, .. })) => rrs.iter().map(rr_from_impl).collect(),
+            Ok(Ok(ResolvedRecord::NonAuthoritative { rrs, soa_rr })) => {
+                // the SOA of a negative answer: from the authority section of a
+                // clean reply, for a zone enclosing the name asked of that
+                // server, not above the delegation through which it was reached
+                if let Some(s) = soa_rr {
+                    let w = rr_from_impl(s);
+                    let same = |x: &WRR| x.name.lower() == w.name.lower() && x.rtype == w.rtype && x.data == w.data;
+                    match sent.iter().enumerate().find(|(_, (_, m, _, _))| m.authority.iter().any(same)) {
+                        None => return out.fail("soa-not-from-authority", format!("{w:?} was in no reply's authority section")),
+                        Some((_, (_, _, true, _))) => return out.fail("used-record-of-discarded-reply", format!("{w:?} came from a reply with a header fault")),
+                        Some((idx, (sq, _, false, dest))) => {
+                            out.classes.push("negative-answer-with-soa".into());
+                            if w.rtype != T_SOA || !sq.name.lower().is_at_or_below(&w.name.lower()) {
+                                return out.fail("soa-owner-not-ancestor", format!("{w:?} for {}", sq.name));
+                            }
+                            let in_use = delegation_depth_in_use(&sent[..idx], *dest, &sq.name.lower());
+                            if w.name.depth() < in_use {
+                                return out.fail("soa-above-delegation-in-use", format!("{w:?} accepted from a server reached through a delegation of depth {in_use}; question {} {}", sq.name, sq.qtype));
+                            }
+                        }
+                    }
+                }
+                rrs.iter().map(rr_from_impl).collect()
+            }
             Ok(Ok(other)) => return out.fail("authoritative-without-local-zone", format!("{other:?}")),
             Ok(Err(_)) => {
                 out.classes.push("resolve:error".into());
